@@ -16,11 +16,11 @@ CHECKS = {
     'C16': ('exploration', '(a) raising calls: same exception object, one evaluation, state unchanged, and a twin run without the raising calls is indistinguishable afterwards; (b) safe decorators with hostile arguments under every keymap degrade to plain evaluation', 'twin equivalence observed through public state; hostile objects limited to unhashable / unencodable ones (raising __eq__ is outside the statement)', PBT + 'metamorphic twin-run oracle + differential oracle'),
     'C18': ('exploration', 'key() equals the storage key of every miss, lookup() agrees with the resident set, neither touches state, and a twin run without introspection ops is indistinguishable; ignore/tol/deep settings included', 'residency for archives used directly as the cache is the archive own membership test', PBT + 'metamorphic twin-run oracle + per-step predicates'),
     'C20': ('exploration', 'dill round trip of the decorated function: equal contents/info/config, then continuation on original vs clone (persistent storage rewound in between) compared step by step; independence and shared-store visibility', 'sqlite-backed caches do not pickle and are excluded', PBT + 'round-trip + lock-step differential oracle'),
-    'C09': ('exploration', 'pairs of call spellings that Python binds identically (inspect.signature.bind) must give equal keys and one evaluation: every keymap class x flat x typed x sentinel, paths f.key / keygen / _keygen / real call, functions, methods and partials', 'identical argument objects in both spellings; positional-only parameters not generated', 'property-based testing (Hypothesis): generated signatures, bindings and spelling pairs; metamorphic oracle (bind-equal => key-equal) with Python own binding as the reference'),
-    'C10': ('exploration', 'pairs of calls whose bound arguments differ must give different keys under every information-preserving keymap and evaluate separately; typed twins (1/1.0/True) separated when typed=True; hurtful string alphabet', 'lossy keymaps (hash(None), flat without sentinel on *args signatures) excluded by the property wording; D3 listed as open known finding', 'property-based testing (Hypothesis): generated signatures and differing binding pairs; metamorphic oracle (bind-different => key-different) + differential call oracle'),
-    'C11': ('exploration', 'independent selector model for ignore specs (names, indices, *, **, self): pairs differing only in ignored positions share a key and one evaluation; pairs differing elsewhere behave exactly as without ignore', 'index selectors not mixed with an ignored instance (shift direction unspecified)', 'property-based testing (Hypothesis): generated signatures x ignore specs x call pairs; reference selector model + metamorphic comparison with ignore=()'),
-    'C12': ('exploration', 'key under tol/deep equals key without tol on independently rounded arguments; the function receives the original objects; valid calls never raise; standalone rounding decorators against the same reference rounder', 'tol in [-12, 12]; nan excluded; built-in round is the scalar primitive on both sides', 'property-based testing (Hypothesis): generated nested argument structures and boundary-straddling pairs; reference-rounder differential oracle'),
-    'C19': ('exploration', 'isvalid/validate compared with really calling a side-effect-free stub: functions, bound methods, classmethods, callable instances and 0-2 layer partials over each; signatures with defaults, *args, keyword-only parameters, **kw; near-arity and arbitrary argument lists; body never runs during validation', 'positional-only parameters and builtins outside the statement', 'property-based testing (Hypothesis): generated signatures x callable kinds x partial layers x argument lists; differential oracle (the interpreter own binding, observed by calling the stub)'),
+    'C09': ('exploration', 'pairs of call spellings that Python binds identically (inspect.signature.bind) must give equal keys and one evaluation: every keymap class x flat x typed x sentinel, paths f.key / keygen / _keygen / real call, functions, methods and partials', 'identical argument objects in both spellings; positional-only parameters not generated', 'property-based testing (Hypothesis): generated signatures, bindings and spelling pairs; metamorphic oracle (bind-equal => key-equal) with Python own binding as the reference; thorough tier adds a coverage-guided (atheris/libFuzzer) campaign over the same strategy and oracle'),
+    'C10': ('exploration', 'pairs of calls whose bound arguments differ must give different keys under every information-preserving keymap and evaluate separately; typed twins (1/1.0/True) separated when typed=True; hurtful string alphabet', 'lossy keymaps (hash(None), flat without sentinel on *args signatures) excluded by the property wording; D3 listed as open known finding', 'property-based testing (Hypothesis): generated signatures and differing binding pairs; metamorphic oracle (bind-different => key-different) + differential call oracle; thorough tier adds a coverage-guided (atheris/libFuzzer) campaign over the same strategy and oracle'),
+    'C11': ('exploration', 'independent selector model for ignore specs (names, indices, *, **, self): pairs differing only in ignored positions share a key and one evaluation; pairs differing elsewhere behave exactly as without ignore', 'index selectors not mixed with an ignored instance (shift direction unspecified)', 'property-based testing (Hypothesis): generated signatures x ignore specs x call pairs; reference selector model + metamorphic comparison with ignore=(); thorough tier adds a coverage-guided (atheris/libFuzzer) campaign over the same strategy and oracle'),
+    'C12': ('exploration', 'key under tol/deep equals key without tol on independently rounded arguments; the function receives the original objects; valid calls never raise; standalone rounding decorators against the same reference rounder', 'tol in [-12, 12]; nan excluded; built-in round is the scalar primitive on both sides', 'property-based testing (Hypothesis): generated nested argument structures and boundary-straddling pairs; reference-rounder differential oracle; thorough tier adds a coverage-guided (atheris/libFuzzer) campaign over the same strategy and oracle'),
+    'C19': ('exploration', 'isvalid/validate compared with really calling a side-effect-free stub: functions, bound methods, classmethods, callable instances and 0-2 layer partials over each; signatures with defaults, *args, keyword-only parameters, **kw; near-arity and arbitrary argument lists; body never runs during validation', 'positional-only parameters and builtins outside the statement', 'property-based testing (Hypothesis): generated signatures x callable kinds x partial layers x argument lists; differential oracle (the interpreter own binding, observed by calling the stub); thorough tier adds a coverage-guided (atheris/libFuzzer) campaign over the same strategy and oracle'),
     'C03': ('exploration', 'dict reference model stepped in lock-step with two archives stored side by side and a copy: 13 archive configurations x direct / behind a cache, 29 operation kinds incl. stores that cannot be encoded; full contents, len, keys, membership and == compared after every step', 'alias-free key pools for directory archives (aliasing, slash keys and source-text poison values are open known findings, probed on every run); popitem / iteration order as validity predicates', 'property-based testing (Hypothesis, stratified over archive configuration x direct/cached): generated operation sequences; model-based differential oracle (Python dict) with per-step full-state comparison'),
     'C08': ('exploration', 'two-dict + flag model of cache / attached archive / parked archive stepped against klepto cache over 12 archive kinds: cache ops, direct archive ops (also on parked and replaced archives), dump/load/sync keyed and unkeyed, archived on/off/query, open, archive=, drop; cache, every archive ever attached, archived() and identity of cache.archive compared after every step', 'str keys and scalar values only (accepted by every codec)', 'property-based testing (Hypothesis, stratified over archive kind; half of the histories start from a constructed conflict or off..mutate..on sandwich): model-based oracle written from the property statement, full-state comparison after every step'),
     'C04': ('exploration', 'dict model of store-time deep copies vs what every reader placement sees (writer handle, new handle, forked process, second interpreter with another hash seed and bytecode caching on, a handle that interpreter kept open) for writers in this process, in forked children that exit, or in a separate interpreter; 10 persistent configurations; rebuild paths (copy from state, dill round trip, cached re-open + load, pickled cache wrapper) and re-decoration sessions served from the archive', 'worker interpreters run with python default bytecode caching; values restricted to each codec domain; sqlite handles do not pickle', 'property-based testing (Hypothesis, stratified over persistent configuration + a session stratum): generated write histories x writer/reader process placements executed with real forked processes and worker interpreters; model-based round-trip oracle (type-exact)'),
@@ -65,7 +65,9 @@ def main():
         },
         'engines': [{
             'name': 'run.py', 'path': '/verif/run.py', 'serves_properties': sorted(CHECKS),
-            'kind_free_text': 'Hypothesis-driven property-based testing (case-as-JSON, sharded over 16 cores), reference-model / per-step predicate oracles, known-findings attribution (trigger AND anomaly), replay files, libc-interposition shim for crash points and schedules'}],
+            'kind_free_text': 'Hypothesis-driven property-based testing (case-as-JSON, sharded over 16 cores), reference-model / per-step predicate oracles, known-findings attribution (trigger AND anomaly), replay files, libc-interposition shim for crash points and schedules'},
+            {'name': 'fuzz.py', 'path': '/verif/tools/fuzz.py', 'serves_properties': ['C09', 'C10', 'C11', 'C12', 'C19'],
+             'kind_free_text': 'coverage-guided campaign (libFuzzer through atheris, klepto instrumented) over the same Hypothesis strategies and oracles via fuzz_one_input; run by the thorough tier of the pure-python key / rounding / validation checks'}],
         'checks': checks,
         'not_applicable': [{'property_id': p, 'reason': PENDING_REASON} for p in ALL if p not in CHECKS],
         'notes': 'Genuine defects repaired in /repo as "fix:" commits and those recorded as findings are listed in /verif/known_findings.json; DESIGN.md section 7 has the mutant table.',
